@@ -1761,6 +1761,8 @@ def shard_e2e(ctx, spec):
         guarded(ctx, run_tree_scenario, ctx, vt, sc)
         if i == 0 and spec["shard"] == 0:
             ctx.sample({"stream": "e2e-history", "spec": sc["spec"], "sends": sc["sends"]})
+    for i in range(spec.get("learns", 0)):
+        guarded(ctx, run_tree_scenario, ctx, vt, gen_learn_broadcast_scenario(ctx, rng))
     for i in range(spec.get("longbursts", 0)):
         sc = gen_longburst_scenario(ctx, rng, spec["shard"] + 16 * i)
         guarded(ctx, run_longburst_scenario, ctx, vt, sc)
@@ -1777,6 +1779,9 @@ def shard_e2e(ctx, spec):
 
 
 def run_case(ctx, vt, case):
+    if isinstance(case.get("child"), dict):
+        run_child(ctx, "replay", {"case": case}, optimize=case["child"].get("optimize", False))
+        return
     try:
         run_case_inner(ctx, vt, case)
     except AddrRefused:
@@ -1854,6 +1859,234 @@ def quiet():
     logging.getLogger("bacpypes.netservice.NetworkServiceAccessPoint").setLevel(logging.CRITICAL)
 
 
+# --------------------------------------------------------------------------
+# child interpreters: `python -O` (asserts stripped) and route_aware=True with full application stacks
+
+
+def gen_learn_broadcast_scenario(ctx, rng):
+    """stations bound WITHOUT their network number learn it via What-Is-Network-Number /
+    Network-Number-Is and then originate global, local and remote traffic"""
+    spec = gen_tree(rng, nn=rng.randrange(2, 6))
+    st = list(spec["stations"])
+    idx = list(range(len(st)))
+    rng.shuffle(idx)
+    for i in idx[:max(2, len(st) // 2)]:
+        st[i] = (st[i][0], st[i][1], rng.choice(["unknown", "addronly"]))
+    spec["stations"] = st
+    sends = []
+    for i in range(len(st)):
+        if st[i][2] != "known":
+            sends.append((i, ["gb"]))
+            sends.append((i, ["lb"]))
+            far = [x for x in st if x[0] != st[i][0]]
+            if far:
+                t = rng.choice(far)
+                sends.append((i, ["rs", t[0], t[1]]))
+                sends.append((i, ["rb", st[i][0]]))        # its own, learned, network by number
+    rng.shuffle(sends)
+    gbs = [x for x in sends if x[1] == ["gb"]][:3]
+    rest = [x for x in sends if x not in gbs]
+    return {"spec": spec, "cache_mode": rng.choice(["cold", "config", "announce"]), "learn": True,
+            "sends": (gbs + rest)[:8], "burst": False, "reply": True, "max_replies": 1}
+
+
+_full = {}
+
+
+def full_classes():
+    if _full:
+        return _full
+    quiet()
+    from bacpypes.comm import bind
+    from bacpypes.app import Application
+    from bacpypes.appservice import StateMachineAccessPoint, ApplicationServiceAccessPoint
+    from bacpypes.local.device import LocalDeviceObject
+    from bacpypes.service.object import ReadWritePropertyServices
+    from bacpypes.netservice import NetworkServiceAccessPoint, NetworkServiceElement
+    from bacpypes.vlan import Node
+
+    class NSE(NetworkServiceElement):
+        _startup_disabled = True
+
+    class FullStation(Application, ReadWritePropertyServices):
+        """complete stack: Application / ASAP / SMAP / NSAP on a vlan node"""
+
+        def __init__(self, ident, mac_hex, lan, net):
+            self.requests_seen = 0
+            self.answers = []
+            device = LocalDeviceObject(objectName="dev%d" % ident, objectIdentifier=('device', ident),
+                                       vendorIdentifier=999)
+            Application.__init__(self, device)
+            self.asap = ApplicationServiceAccessPoint()
+            self.smap = StateMachineAccessPoint(device)
+            self.smap.deviceInfoCache = self.deviceInfoCache
+            self.nsap = NetworkServiceAccessPoint()
+            self.nse = NSE()
+            bind(self.nse, self.nsap)
+            bind(self, self.asap, self.smap, self.nsap)
+            self.node = Node(mk_station(None, mac_hex), lan)
+            self.nsap.bind(self.node, net, mk_station(None, mac_hex))
+
+        def indication(self, apdu):
+            self.requests_seen += 1
+            Application.indication(self, apdu)
+
+        def confirmation(self, apdu):
+            self.answers.append(type(apdu).__name__)
+
+    class PlainRouter:
+        def __init__(self):
+            self.nsap = NetworkServiceAccessPoint()
+            self.nse = NSE()
+            bind(self.nse, self.nsap)
+
+        def add(self, mac_hex, lan, net):
+            self.nsap.bind(Node(mk_station(None, mac_hex), lan), net, mk_station(None, mac_hex))
+
+    _full.update(FullStation=FullStation, PlainRouter=PlainRouter)
+    return _full
+
+
+def gen_appstack_scenario(ctx, rng, route_aware):
+    n = rng.choice([2, 2, 3])
+    nets = rng.sample([1, 2, 3, 5, 9, 255, 256, 4000, 65534], n)
+    macs = lambda k: [bytes([x]).hex() for x in rng.sample(range(1, 250), k)]
+    routers = [macs(2) for _ in range(n - 1)]
+    stations = [[nets[i], m] for i in range(n) for m in macs(rng.choice([1, 2]))]
+    pairs = []
+    for _ in range(rng.choice([1, 2, 3])):
+        a, b = rng.sample(range(len(stations)), 2)
+        if stations[a][0] != stations[b][0]:
+            pairs.append([a, b])
+    if not pairs:
+        a = 0
+        b = max(i for i in range(len(stations)) if stations[i][0] != stations[0][0])
+        pairs = [[a, b], [b, a]]
+    return {"kind": "appstack", "route_aware": route_aware, "nets": nets, "routers": routers,
+            "stations": stations, "pairs": pairs}
+
+
+def run_appstack_scenario(ctx, vt, sc):
+    """confirmed request across router(s) between FULL application stacks: the server application
+    must see the request exactly once and the requesting application exactly one answer"""
+    from bacpypes.settings import settings
+    from bacpypes.vlan import Network
+    from bacpypes.pdu import LocalBroadcast
+    from bacpypes.apdu import ReadPropertyRequest
+    K = full_classes()
+    old = settings.route_aware
+    vt.reset()
+    try:
+        settings.route_aware = bool(sc["route_aware"])
+        lans = {n: Network(name=str(n), broadcast_address=LocalBroadcast()) for n in sc["nets"]}
+        sts = [K["FullStation"](1000 + i, m, lans[n], n) for i, (n, m) in enumerate(sc["stations"])]
+        for i, ms in enumerate(sc["routers"]):
+            r = K["PlainRouter"]()
+            r.add(ms[0], lans[sc["nets"][i]], sc["nets"][i])
+            r.add(ms[1], lans[sc["nets"][i + 1]], sc["nets"][i + 1])
+        for k, (a, b) in enumerate(sc["pairs"]):
+            client, server = sts[a], sts[b]
+            seen0, ans0 = server.requests_seen, len(client.answers)
+            req = ReadPropertyRequest(objectIdentifier=('device', 1000 + b), propertyIdentifier='objectName',
+                                      destination=mk_station(sc["stations"][b][0], sc["stations"][b][1]))
+            client.request(req)
+            vt.advance(60.0)
+            case = dict(sc, step=k)
+            seen, answers = server.requests_seen - seen0, client.answers[ans0:]
+            if seen != 1:
+                ctx.fail("request-count", case, "route_aware=%r: the request reached the server application %d times, "
+                         "expected 1" % (sc["route_aware"], seen), clause="once", count=seen)
+            if answers != ["ReadPropertyACK"]:
+                ctx.fail("reply-lost", case, "route_aware=%r: the requesting application received %r, expected exactly "
+                         "one ReadPropertyACK" % (sc["route_aware"], answers), clause="reply_routable")
+            if vt.errors:
+                ctx.fail("task-exception", case, "exception inside a task: %r" % (vt.errors[:2],))
+                vt.errors = []
+            ctx.count("appstack", (bool(sc["route_aware"]), len(sc["nets"]), k))
+    finally:
+        settings.route_aware = old
+
+
+def child_body(ctx, req):
+    """runs INSIDE the child interpreter"""
+    from .vt import VT
+    core.bind_repo()
+    vt = VT.install()
+    ctx.model_ok = False
+    mode = req["mode"]
+    if mode == "optimized":
+        rng = ctx.sub_rng("optimized")
+        for i in range(req.get("n", 6)):
+            guarded(ctx, run_tree_scenario, ctx, vt, gen_learn_broadcast_scenario(ctx, rng), False)
+        for i in range(req.get("trees", 4)):
+            guarded(ctx, run_tree_scenario, ctx, vt, gen_tree_scenario(ctx, rng, nsends=4), False)
+        for i in range(req.get("histories", 3)):
+            guarded(ctx, run_tree_scenario, ctx, vt, gen_history_scenario(ctx, rng), False)
+        guarded(ctx, run_cycle_scenario, ctx, vt, gen_cycle_scenario(ctx, rng))
+    elif mode == "appstack":
+        rng = ctx.sub_rng("appstack")
+        for i in range(req.get("n", 6)):
+            for ra in (False, True):
+                guarded(ctx, run_appstack_scenario, ctx, vt, gen_appstack_scenario(ctx, rng, ra))
+    elif mode == "replay":
+        case = dict(req["case"])
+        case.pop("child", None)
+        if case.get("kind") == "appstack":
+            guarded(ctx, run_appstack_scenario, ctx, vt, case)
+        else:
+            run_case(ctx, vt, case)
+    else:
+        raise core.Infra("unknown child mode %r" % (mode,))
+
+
+def child_main():
+    import sys
+    req = json.loads(sys.stdin.read())
+    ctx = core.Ctx("C06", req.get("tier", "quick"), req.get("seed", 0))
+    try:
+        child_body(ctx, req)
+        out = {"ok": True, "failures": ctx.failures[:300], "n_failures": len(ctx.failures),
+               "kinds": {k: v for k, v in ctx.kinds.items()}, "evaluations": ctx.evaluations,
+               "sigs": [[k, repr(sg)] for k, sg in ctx.signatures], "optimized": not __debug__}
+    except Exception:
+        import traceback
+        out = {"ok": False, "why": traceback.format_exc()[-1500:]}
+    sys.stdout.write("\nC06-CHILD " + json.dumps(out, default=str) + "\n")
+
+
+def run_child(ctx, mode, req, optimize):
+    """one stream in a child interpreter (python -O: asserts stripped; or an interpreter in which
+    settings.route_aware may be switched on without touching this process)"""
+    import subprocess, sys
+    req = dict(req, mode=mode, seed=ctx.seed, tier=ctx.tier)
+    cmd = [sys.executable] + (["-O"] if optimize else []) + ["-m", "harness.c06"]
+    try:
+        p = subprocess.run(cmd, input=json.dumps(req), cwd=core.VERIF, stdout=subprocess.PIPE,
+                           stderr=subprocess.PIPE, text=True, timeout=600)
+    except subprocess.TimeoutExpired:
+        raise core.Infra("child %s timed out" % mode)
+    line = [l for l in p.stdout.split("\n") if l.startswith("C06-CHILD ")]
+    if not line:
+        raise core.Infra("child %s gave no result: rc=%s %s" % (mode, p.returncode, p.stderr[-400:]))
+    out = json.loads(line[-1][len("C06-CHILD "):])
+    if not out.get("ok"):
+        raise core.Infra("child %s crashed: %s" % (mode, out.get("why")))
+    if optimize and not out.get("optimized"):
+        raise core.Infra("python -O child still has asserts")
+    tag = {"mode": mode, "optimize": bool(optimize)}
+    label = "python -O" if optimize else "child"
+    for k, v in out["kinds"].items():
+        ctx.count("%s/%s" % (label, k), n=v)
+    for k, sg in out["sigs"]:
+        ctx.signatures.add(("%s/%s" % (label, k), sg))
+    for f in out["failures"]:
+        case = f.get("case") if isinstance(f.get("case"), dict) else {"case": f.get("case")}
+        extra = {k: v for k, v in f.items() if k not in ("kind", "case", "what")}
+        ctx.fail(f["kind"], dict(case, child=tag), "[%s] %s" % (label, f["what"]), **extra)
+    if out["n_failures"] > len(out["failures"]):
+        ctx.notes.append("%s child: %d failures, first %d kept" % (label, out["n_failures"], len(out["failures"])))
+
+
 def preflight(ctx):
     from bacpypes.settings import settings
     if settings.route_aware:
@@ -1872,15 +2105,22 @@ def run(ctx):
     run_corpus(ctx, vt)
     if ctx.quick:
         lock = [{"shard": i, "n": 60} for i in range(16)]
-        e2e = [{"shard": i, "trees": 6, "cycles": 3, "nsends": 5, "histories": 8, "longbursts": 1} for i in range(16)]
+        e2e = [{"shard": i, "trees": 6, "cycles": 3, "nsends": 5, "histories": 8, "longbursts": 1, "learns": 1} for i in range(16)]
     else:
         lock = [{"shard": i, "n": 2000} for i in range(16)]
         # every (source, kind, destination) on 4 trees per shard (capped at 250 sends each),
         # a sample of 12 sends on 100 more; 30 cyclic scenarios per shard
         e2e = [{"shard": i, "trees": 4, "cycles": 0, "exhaustive": True} for i in range(32)]
-        e2e += [{"shard": 100 + i, "trees": 100, "cycles": 30, "nsends": 12, "histories": 150, "longbursts": 6} for i in range(32)]
+        e2e += [{"shard": 100 + i, "trees": 100, "cycles": 30, "nsends": 12, "histories": 150, "longbursts": 6, "learns": 10} for i in range(32)]
     core.run_shards(ctx, "harness.c06", "shard_lockstep", lock)
     core.run_shards(ctx, "harness.c06", "shard_e2e", e2e)
+    # asserts stripped (python -O): learn-then-broadcast + a sample of the ordinary e2e scenarios
+    big = 1 if ctx.quick else 8
+    if os.environ.get("VERIF_SUBPASS"):
+        return                      # core's debug-flags pass: no grandchildren
+    run_child(ctx, "optimized", {"n": 6 * big, "trees": 4 * big, "histories": 3 * big}, optimize=True)
+    # route_aware on/off with full application stacks (settings are process-global: child)
+    run_child(ctx, "appstack", {"n": 6 * big}, optimize=False)
 
 
 def search(ctx):
@@ -1902,3 +2142,7 @@ def replay(ctx, payload):
     if not case:
         raise core.Infra("nothing to replay")
     run_case(ctx, vt, case)
+
+
+if __name__ == "__main__":
+    child_main()
